@@ -29,8 +29,8 @@ RULE = (
 )
 ASSUMPTIONS = ["member option values are JSON scalars / lists; the class reports keys() on the instance's own options"]
 FLOORS = {"instances_checked": (3000, 60000), "pairs_compared": (6000, 120000), "pairs_differing_only_in_relevant_dotted_key": (600, 12000),
-          "pairs_differing_only_in_irrelevant_key": (1500, 30000), "union_checks": (3000, 60000), "repr_checks": (3000, 60000), "pairs_same_options_entries_reordered": (1500, 30000), "container_constants_checked": (1500, 30000)}
-SHARDS_QUICK = 4
+          "pairs_differing_only_in_irrelevant_key": (1500, 30000), "union_checks": (3000, 60000), "repr_checks": (3000, 60000), "pairs_same_options_entries_reordered": (1500, 30000), "container_constants_checked": (1500, 30000), "option_members_edited": (3000, 60000)}
+SHARDS_QUICK = 8
 
 PRISTINE = {}  # id(constant object placed in a class body) -> deep copy taken at declaration
 FLAT = ["A", "B", "C"]
@@ -211,6 +211,24 @@ def instance_case(ctx, cls, members, raw, o):
     if rep != f"DC({shown!r})":
         ctx.violation("repr", f"repr = {rep} but the reported keys with their values are DC({shown!r})", W)
         return None
+    # the owner of an instance may edit the values of its option members: equality, repr and the caller's dictionary
+    # are about the options the instance was built from and must not follow such edits
+    o_x = copy.deepcopy(o)
+    x, y = cls(o_x), cls(copy.deepcopy(o))
+    rep_x = repr(x)
+    edited = False
+    for name, (kind, ks) in members.items():
+        if kind in ("opt", "optdefault") and isinstance(getattr(x, name), (list, dict)):
+            scribble(getattr(x, name))
+            edited = True
+    if edited:
+        ctx.count("option_members_edited")
+        if o_x != o:
+            ctx.violation("caller-dictionary-follows-member-edit", f"editing a member of C(o) changed the caller's dictionary: {o} -> {o_x}", W)
+            return None
+        if not (x == y) or repr(x) != rep_x:
+            ctx.violation("equality", f"after editing a member value of x in place, x == y is {x == y} and repr(x) is {repr(x)} (was {rep_x}); both were built from equal options", W)
+            return None
     return inst, exp_keys
 
 
